@@ -128,7 +128,7 @@ impl<S: Clone + Default> AsRef<ServerConfig<S>> for ServerConfig<S> {
 //@@ octo-squirrel-server/src/server.rs:42-53  fn startup  sha=5b558bb3076fb7ad
 fn startup(config: ServerConfig<SslConfig>, Tracked(vlog): Tracked<&mut SrvLog>)
     ensures
-        //#C16
+        //#C16 C01
         // protocol "shadowsocks" delegates to the Shadowsocks start-up and opens nothing here; "vmess" / "trojan" start the QUIC service and one
         // TCP listener on the configured host:port, and every connection is served with that protocol's codec, through the ssl / ws sections' service
         match config.protocol {
